@@ -10,6 +10,8 @@ STYLES = {
  'feature': "the change is presented as a small FEATURE ADDITION or API EXTENSION that a maintainer would welcome — support for one more message type or sentence variant (e.g. types 22/23/25/26, `!BSVDM`-style talkers, NMEA 4.10 TAG blocks with more fields, a `parse_with_timestamp`, a builder/`Default`/`Clone` for the parser, a getter, a `Display` impl, a new cargo feature) — where the new code path, or the small refactoring made to accommodate it, changes the behaviour of EXISTING inputs in some corner; the feature itself should work",
  'port': "the change is presented as a PORT / MIGRATION of an internal — replacing a nom combinator chain by a hand-written reader (or the reverse), a `Vec` by a fixed array or `heapless` container (or the reverse), `u8` arithmetic by `usize`/`u32` (or the reverse), byte-slice handling by `str` handling, a recursive helper by a loop, a per-call buffer by a field of the parser, the bit cursor `(slice, offset)` by a running bit index — where the port is faithful except in ONE corner (a boundary, a width, an error that became a value or the reverse, a state that now survives a failing call)",
  'harden': "the change is presented as ROBUSTNESS HARDENING — limits, sanity checks, early rejections, defensive clamps, saturating arithmetic, resynchronisation after garbage, duplicate suppression, a time-to-live for pending fragment groups — that goes ONE STEP too far or is off by one, so that some legal input is now rejected, altered or forgotten (or an illegal one slips through a check that was moved)",
+ 'spec': "the change is presented as bringing the decoder CLOSER TO THE STANDARDS (ITU-R M.1371-5, NMEA 0183 / IEC 61162-1, IALA guidance) as a well-meaning maintainer reads them — rejecting or normalising values the standard calls reserved, undefined or 'not to be used', applying a default the standard prescribes, clamping to the documented range, honouring a corner the standard describes (e.g. heading 360..510, speed 1022 = '102.2 knots or higher', second 61..63, type 24 part numbers 2..3, ship type first/second digit, turn rate +-127, fill bits, sentence length limit of 82 characters, talker identifiers) — in a way that CONTRADICTS THE PROPERTY AS STATED above for some input",
+ 'api': "the change is presented as PUBLIC-API ERGONOMICS / INPUT NORMALISATION — `parse` accepting `impl AsRef<[u8]>` or `&str`, trimming surrounding whitespace or a trailing CR/LF, tolerating lower-case or missing pieces, skipping a UTF-8 BOM or leading garbage before the '!', `FromStr`/`TryFrom<&[u8]>` impls, an iterator adaptor over lines, returning owned instead of borrowed data, `#[must_use]`/`Default`/`Clone`/`PartialEq` derives, splitting a module — where the normalisation or the restructuring changes what some line means (bytes dropped or kept that take part in the checksum, a field that is now optional, state that is now shared or copied)",
  'diag': "the change is presented as an improvement of DIAGNOSTICS — richer error values or messages, error context (line number, field name, offset), a `source()` chain, logging hooks, a `Debug` clean-up, a statistics counter on the parser — where computing the diagnostic has a side effect on parsing (consumes input, mutates state before a check, evaluates something eagerly that used to be lazy, panics while formatting, changes which error wins)",
 }
 
